@@ -5,7 +5,7 @@ TRUST = ('CPython 3.12 asyncio/threading/concurrent.futures internals are atomic
 def cache(text):
     return {'engine': 'tlc+runtime', 'design_ref': 'DESIGN.md §5', 'technique':
             'TLA+ model (Cache.tla) checked exhaustively by TLC with the contract monitor composed in; '
-            'executions of the real code under a deterministic line-level scheduler validated by TLC against CacheContract.tla',
+            'executions of the real code under a deterministic line-level scheduler validated by TLC against CacheContract.tla; a sample of the recorded executions is also validated action-by-action against Cache.tla (CacheConform.tla: silent internal steps, projected implementation state compared at every observable event)',
             'text': text, 'note': TRUST}
 
 CHECKS = {
